@@ -11,13 +11,13 @@ def run(v, tier, seed, work):
     dims = dict(MaxN=3, W=2, MaxTail=1) if quick else dict(MaxN=4, W=2, MaxTail=2)
     ep = os.path.join(work, "dispatch_inputs.ndjson")
     # only the inputs are needed: depth-1 edges carry them
-    r = vlib.run_tlc('Dispatch', dict(constants=dict(Track=True, EndChecksResend=True, VerifyAfterEnd=False, Wide=False, **dims),
+    r = vlib.run_tlc('Dispatch', dict(constants=dict(Track=True, EndChecksResend=True, VerifyAfterEnd=False, SkipUnverifiable=False, Wide=False, **dims),
                                       view='View', action_constraint='Emit', constraint='DepthOne'),
                      workers=8, edges_path=ep, timeout=900)
     res = vlib.run_vh_sharded(['dispatch-e2e', '-edges', ep], 12, timeout=2400)
     # wide files: 8 and 16 chunks (whole bitmap bytes) with a family of bitmaps
     epw = os.path.join(work, "dispatch_inputs_wide.ndjson")
-    rw = vlib.run_tlc('Dispatch', dict(constants=dict(Track=True, EndChecksResend=True, VerifyAfterEnd=False, Wide=True, MaxN=16, W=2, MaxTail=1 if quick else 2),
+    rw = vlib.run_tlc('Dispatch', dict(constants=dict(Track=True, EndChecksResend=True, VerifyAfterEnd=False, SkipUnverifiable=False, Wide=True, MaxN=16, W=2, MaxTail=1 if quick else 2),
                                        view='View', action_constraint='Emit', constraint='DepthOne'),
                       workers=8, edges_path=epw, timeout=900)
     resw = vlib.run_vh_sharded(['dispatch-e2e', '-edges', epw, '-sample', '3' if quick else '1'], 12, timeout=2400)
